@@ -68,7 +68,7 @@ pub fn random_behaviour(rng: &mut Rng, task: usize, calls: u32, p_susp: u64, max
 pub fn random_picks(rng: &mut Rng, len: usize, tasks: usize, p_spurious: u64, p_advance: u64) -> Vec<Pick> {
     (0..len)
         .map(|_| Pick {
-            task: rng.below(tasks.max(1) as u64) as u8,
+            task: rng.below(tasks.max(1) as u64) as u16,
             spurious: rng.chance(p_spurious, 1000),
             advance: rng.chance(p_advance, 1000),
         })
@@ -231,7 +231,7 @@ impl<'a> Model<'a> {
     pub fn eval(&mut self, x: &X) -> MRes {
         let kind = x.kind();
         match x {
-            X::Tower(..) | X::Chain(..) => {
+            X::Tower(..) | X::Chain(..) | X::ManyCalls(..) => {
                 if let X::Chain(_, items) = x {
                     if items.len() >= 34 {
                         self.cov.bump("hit.operator_chain_of_34_or_more_operands");
